@@ -1256,8 +1256,8 @@ def _quick_family():
         out.append((H, [[a, ka], [c, kc]], ["P", "D"] if j in (0, 1, 3, 4) else (["P", "S"] if j == 2 else ["P"])))
     # grids (pitch, offset, axial bounds) and caches; they do not depend on the keep-set (height is in set 2)
     out.append((Cq, [["R", 0], ["K", 0]], ["G", "H", "Q"]))
-    out.append((Cq, [["K", 0], ["A", 2]], ["G", "H", "Q"]))
-    out.append((H, [["A", 2], ["B", 0]], ["G", "H", "Q"]))
+    out.append((Cq, [["K", 0], ["A", 2]], ["G", "H"]))
+    out.append((H, [["A", 2], ["B", 0]], ["G", "H"]))
     out.append((H, [["B", 0], ["B", 0]], ["G", "H", "Q"]))
     out.append((H, [["B", 0], ["C", 0]], ["D", "D2", "Q"]))
     out.append((H, [["A", 2], ["B", 2]], ["L", "RL"]))
